@@ -162,8 +162,8 @@ func (rr *DefaultRelationsResolver) NewAutoMutation() (*Mutation, S) {
 	m := t.Machine
 	var toAdd S
 
-	// check all Auto states
-	for s := range m.schema {
+	// check all Auto states, in the order of the state names (deterministic)
+	for _, s := range m.stateNames {
 		if !m.schema[s].Auto {
 			continue
 		}
@@ -523,7 +523,13 @@ func (g *graph) TopologicalSort() ([]string, error) {
 		return nil
 	}
 
+	// visit in a stable order, map iteration would make the result random
+	nodes := make([]string, 0, len(g.vertices))
 	for node := range g.vertices {
+		nodes = append(nodes, node)
+	}
+	sort.Strings(nodes)
+	for _, node := range nodes {
 		if !visited[node] {
 			if err := visit(node); err != nil {
 				return nil, err
